@@ -6,12 +6,14 @@ VARIABLE meth
 Seed == atoi(IOEnv.VERIF_SEED)
 Thorough == IOEnv.VERIF_TIER = "thorough"
 Scen == {s \in [meth : {"MS", "SS", "DC"}, args : (SUBSET ArgNames) \ {{}}, pre : [ArgNames -> Vals \cup {0}], post : {"none", "p", "q", "gx"},
-               vals : [ArgNames -> Vals], iters : {0, 50}, scaled : BOOLEAN, remake : BOOLEAN, multi : BOOLEAN] :
+               vals : [ArgNames -> Vals], iters : {0, 50}, scaled : BOOLEAN, remake : BOOLEAN, multi : BOOLEAN, cat : BOOLEAN] :
            /\ s.pre.p # 0 /\ s.pre.q # 0
            /\ (~Thorough => (s.pre.gu = 0 /\ s.vals.gu = 1 /\ (s.pre.gx = 0 \/ "gx" \in s.args)))
            /\ (s.remake => s.post # "none")
            \* two stages cloned from one template: p / q are the values of the template's parameter in stage 1 / stage 2
            /\ (s.multi => s.args \subseteq {"p", "q"} /\ s.post # "gx" /\ ~s.scaled /\ s.iters = 50 /\ s.pre.gx = 0 /\ s.pre.gu = 0 /\ s.vals.gx = 1 /\ s.vals.gu = 1)
+           \* imperative values given through one set_value on a concatenation (matrix parameter first, then p): same meaning
+           /\ (s.cat => ~s.scaled /\ ~s.multi /\ s.iters = 50 /\ "p" \in s.args)
            /\ (s.iters = 0 => ("gx" \in s.args \/ "gu" \in s.args))
            \* scaled states/controls (C14 x C19): a thin slice of the space
            /\ (s.scaled => s.post = "none" /\ s.iters = 50 /\ s.pre = [p |-> 1, q |-> 1, gx |-> 0, gu |-> 0])}
@@ -20,7 +22,7 @@ NextS == UNCHANGED <<vars, meth>>
 Emit == LET s == meth
             snap == IF s.remake THEN [s.pre EXCEPT ![s.post] = 3] ELSE s.pre
             f == [args |-> s.args, snap |-> snap]
-        IN TLCSet(1, Append(TLCGet(1), [sc |-> [meth |-> s.meth, args |-> s.args, pre |-> s.pre, post |-> s.post, vals |-> s.vals, iters |-> s.iters, scaled |-> s.scaled, remake |-> s.remake, multi |-> s.multi],
+        IN TLCSet(1, Append(TLCGet(1), [sc |-> [meth |-> s.meth, args |-> s.args, pre |-> s.pre, post |-> s.post, vals |-> s.vals, iters |-> s.iters, scaled |-> s.scaled, remake |-> s.remake, multi |-> s.multi, cat |-> s.cat],
                                         data |-> DataOfCall(f, s.vals)]))
 Post == /\ ndJsonSerialize(IOEnv.OUT_FILE, TLCGet(1)) /\ PrintT(<<"emitted", Len(TLCGet(1))>>)
 ASSUME TLCSet(1, <<>>)
